@@ -54,6 +54,7 @@ type SRPServer struct {
 	V      *big.Int
 	b      *big.Int
 	B      *big.Int
+	kv, gb *big.Int
 }
 
 func NewSRPServer(s1, s2 []byte, g int64, p, v, b *big.Int) *SRPServer {
@@ -67,16 +68,20 @@ func (s *SRPServer) k() *big.Int {
 }
 
 func (s *SRPServer) recompute() {
-	kv := new(big.Int).Mul(s.k(), s.V)
-	kv.Mod(kv, s.P)
-	gb := new(big.Int).Exp(big.NewInt(s.G), s.b, s.P)
-	s.B = kv.Add(kv, gb).Mod(kv, s.P)
+	s.kv = new(big.Int).Mul(s.k(), s.V)
+	s.kv.Mod(s.kv, s.P)
+	s.gb = new(big.Int).Exp(big.NewInt(s.G), s.b, s.P)
+	s.B = new(big.Int).Add(s.kv, s.gb)
+	s.B.Mod(s.B, s.P)
 }
 
-// BumpB moves the server secret to b+1 (cheap way to search for a B with given leading bytes).
+// BumpB moves the server secret to b+1 (one modular multiplication: a cheap way to search for a B with given
+// leading bytes).
 func (s *SRPServer) BumpB() {
 	s.b.Add(s.b, big.NewInt(1))
-	s.recompute()
+	s.gb.Mul(s.gb, big.NewInt(s.G)).Mod(s.gb, s.P)
+	s.B = new(big.Int).Add(s.kv, s.gb)
+	s.B.Mod(s.B, s.P)
 }
 
 // S returns the shared secret the server derives for the client's A: S = (A * v^u)^b mod p.
